@@ -402,7 +402,7 @@ impl Group for Trace {
         "c16.trace"
     }
     fn rule(&self) -> &'static str {
-        "a real loopback server whose Extensions were built by random add/remove sequences on the Prime, Package, Post and Prepare(predicate) lists plus optionally a path-bound Prepare; marker extensions log their tag; the body returned by the Prepare starts with a generated `!> ` line naming marker Present extensions that log their arguments; (sometimes the reply is empty, or empty after the `!> ` line); one GET; the log is compared with the model's trace (all Primes in list order, the chosen Prepare, Present by line order with exact arguments, all Packages, all Posts); non-trivial = at least 4 entries"
+        "a real loopback server whose Extensions were built by random add/remove sequences on the Prime, Package, Post, Prepare(predicate) and Present(predicate) lists plus optionally a path-bound Prepare; marker extensions log their tag; the body returned by the Prepare starts with a generated `!> ` line naming marker Present extensions that log their arguments; (sometimes the reply is empty, or empty after the `!> ` line); one GET; the log is compared with the model's trace (all Primes in list order, the chosen Prepare, every accepting predicate-bound Present in list order, Present by line order with exact arguments, all Packages, all Posts); non-trivial = at least 4 entries"
     }
     fn parallel(&self) -> bool {
         false
@@ -431,7 +431,11 @@ impl Group for Trace {
                     1 if !exts.is_empty() => {}
                     _ => body.extend_from_slice(b"content"),
                 }
-                format!("c16.trace {pr} {pk} {po} {pf} {} {} {}", b01(single), hex(&body), list([hex(b"m1"), hex(b"m2")]))
+                let pn = list((0..rng.below(4)).map(|_| {
+                    tag = (tag + 1) % 250;
+                    format!("{}:{}:{}", rng.below(5) as i32 - 2, b01(rng.chance(2, 3)), tag)
+                }));
+                format!("c16.trace {pr} {pk} {po} {pf} {} {} {} {pn}", b01(single), hex(&body), list([hex(b"m1"), hex(b"m2")]))
             })
             .collect()
     }
@@ -464,6 +468,19 @@ impl Group for Trace {
                     log.lock().unwrap().push("prepare999".into());
                     FatResponse::no_cache(Response::new(body.clone()))
                 }),
+            );
+        }
+        // predicate-bound Present extensions: every accepting one runs, highest priority first, before the named ones
+        for f in parse_list(p.get(8).copied().unwrap_or("[]")).unwrap() {
+            let x: Vec<&str> = f.split(':').collect();
+            let (prio, pred, tag): (i32, bool, usize) = (x[0].parse().unwrap(), x[1] == "1", x[2].parse().unwrap());
+            let log = log.clone();
+            ext.add_present_fn(
+                Box::new(move |_, _| pred),
+                present!(_data, move |log: Log, tag: usize| {
+                    log.lock().unwrap().push(format!("presentfn{tag}"));
+                }),
+                extensions::Id::new(prio, tag_name(tag)),
             );
         }
         for name in ["m1", "m2"] {
